@@ -26,6 +26,15 @@ func VerifC04TAMemory() {
 	var caps []int64
 	maxMem := int64(verifParam("maxMem", 1<<20))
 	for i := 0; i < nnodes; i++ {
+		if verifParam("symbolicCaps", 1) == 0 {
+			// concrete capacities: maxMem per node (0 for a memory-less node)
+			c := maxMem
+			if machine == 4 && i == 1 {
+				c = 0
+			}
+			caps = append(caps, c)
+			continue
+		}
 		c := verifNondetInt64("memcap")
 		verifAssume(verifAnd(c >= 1, c <= maxMem))
 		caps = append(caps, c)
